@@ -162,6 +162,7 @@ func checkC32(w *World, r *Run) {
 	checkC32Abstraction(w, r, ruleAbs, ruleContains, isTrusted)
 	checkC32NilList(w, r)
 	checkSchemeFromTheConnection(w, r)
+	checkSettingsLayersKeepLists(w, r)
 	checkC32ListUnfiltered(w, r)
 	r.NotCovered("CIDR membership arithmetic (net.IPNet.Contains), parsing of X-Forwarded-For lists, IPv4-mapped IPv6 forms (runtime values)")
 }
